@@ -14,20 +14,20 @@ CHECKS = {
                 text="every opcode emulated on exhaustive 8/16-bit operand values (thorough: all 16-bit pairs), boundary-crossed 32/64-bit values, all chunk positions and prefixes, compared with an independently written reference; multi-instruction programs against a whole-program interpreter; float/double opcodes (single forms, pairs, random programs on structured operands) emulated vs the reference in the default floating-point environment",
                 note="trusts harness/ref.c as the reading of the opcode reference (deviations from the doc table's pseudo-code are listed in DESIGN.md)"),
     "C03": dict(engine="exec", cat="exploration", tech="guard-page and canary monitoring of real executions (PROT_NONE pages flush against every array, read-only sources)",
-                text="every array flush against an inaccessible page on either side, rows separated by unmapped pages or canaried gaps, sources read-only; native and emulated executions observed for faults and canary damage; a CPU-time watchdog turns a native call that does not return into a bounded hang report",
+                text="every array flush against an inaccessible page on either side, rows separated by unmapped pages or canaried gaps, sources read-only; native and emulated executions observed for faults and canary damage; two arena slots straddle a 4 GiB boundary so that rows of 2-D arrays lie on both sides of it; a CPU-time watchdog turns a native call that does not return into a bounded hang report",
                 note="reads inside the mapped data pages but outside entitled elements are visible only at array ends; entitled ranges computed by the harness"),
     "C10": dict(engine="exec", cat="exploration", tech="state-seeding assembly trampoline monitoring callee-saved registers, rsp, stack canaries, MXCSR, DF, x87 tags around every JIT call",
                 text="all native executions of generated programs (incl. many-array programs forcing callee-saved registers and four-accumulator programs) run through a trampoline that seeds and compares machine state; the executor lies flush against a guard page at its natural alignment so that a write behind it faults",
                 note="System V AMD64 only; memory writes outside arrays/executor observed via canaries and guard pages around arrays and executor"),
     "C18": dict(engine="exec", cat="exploration", tech="runtime differential monitoring of float opcodes: native vs emulator vs independent IEEE reference on structured operand sets",
-                text="bit-exact three-way comparison (native sse/avx, emulation, reference) of all float/double opcodes on structured operands, with the tolerances the statement grants (NaN class, min/max of equal operands); NaN propagation of single-instruction arithmetic programs checked lane by lane; plus the gcc-compiled generated C (backup, Orc-free) and the JIT wrapper of every float single-opcode form on wide finite operands",
+                text="bit-exact three-way comparison (native sse with default, SSE2-only and up-to-SSSE3 flags and avx, emulation, reference) of all float/double opcodes on structured operands, with the tolerances the statement grants (NaN class, min/max of equal operands); NaN propagation of single-instruction arithmetic programs checked lane by lane; plus the gcc-compiled generated C (backup, Orc-free) and the JIT wrapper of every float single-opcode form on wide finite operands",
                 note="reference uses host IEEE arithmetic in round-to-nearest; generated C of multi-instruction programs is C04's"),
     "C11": dict(engine="asmdump+asmcmp+exec", cat="exploration", tech="runtime monitoring of emitted machine code: objdump disassembly re-assembled by GNU as under the ISA the flags allow, plus native execution under feature-flag subsets",
-                text="every single-opcode program under every SSE/MMX feature subset (plus sampled multi-instruction programs) is compiled; the bytes Orc emitted are disassembled and re-assembled under `.arch` restrictions matching the flags; each subset is also executed against emulation",
-                note="GNU as/objdump are the ISA oracle; 32-bit code is classified but not executed; subsets of this host's features only"),
+                text="every single-opcode program under every SSE/MMX feature subset (plus sampled multi-instruction programs) is compiled; the bytes Orc emitted are disassembled and re-assembled under `.arch` restrictions matching the flags; MMX flag sets naming 3DNow! are classified too; each subset of this host's features is also executed against emulation",
+                note="GNU as/objdump are the ISA oracle; 32-bit code and flag sets beyond this host's features are classified but not executed"),
     "C12": dict(engine="asmdump+asmcmp", cat="exploration", tech="runtime comparison of the assembled listing with the emitted machine code through a common disassembler",
-                text="listing assembled with GNU as and machine code both disassembled with objdump and compared instruction by instruction (nop padding dropped, branch targets as instruction ordinals) for generated programs x targets x 64/32-bit x jumps x frame pointer x feature subsets",
-                note="no ARM/MIPS cross assembler is installed, so the NEON/MIPS sub-claim is not decided (the statement makes it conditional on one being installed)"),
+                text="listing assembled with GNU as and machine code both disassembled with objdump and compared instruction by instruction (nop padding dropped, branch targets as instruction ordinals) for generated programs x targets x 64/32-bit x jumps x frame pointer x feature subsets; the mips back end is compared the same way through llvm-mc-14/llvm-objdump-14 (mipsel, DSPr2)",
+                note="NEON listings are not compared: without GNU as for ARM, differences llvm-mc shows cannot be told apart from dialect differences (DESIGN.md section 5)"),
     "C04": dict(engine="orccgen+orccdrv", cat="exploration", tech="runtime differential monitoring of gcc-compiled generated C (backup and Orc-free forms written by the real orcc) against an independent reference interpreter, plus regeneration of the emulator source",
                 text="every single-opcode form (~2000) and random int/float/mixed programs go through orcc; the emitted C is compiled with gcc and run as executor-based backup (ORC_CODE=backup) and as Orc-free DISABLE_ORC build; destination bytes with canary margins, accumulators and sources are compared with the reference interpreter; generate-emulation output is token-compared with the checked-in emulator",
                 note="finite float operands only (C18 grants bit-exactness for those); gcc -O2 only; the reference interpreter is tied to emulation by C02"),
@@ -50,10 +50,10 @@ CHECKS = {
                 text="300k (quick) / 3M (thorough) texts of nine kinds parsed under ASan/UBSan; error line numbers, reporting of injected faults at their line, compile and free of every returned program are checked",
                 note="C-string inputs only; libFuzzer phase bounded by executions (640k quick, 6.4M thorough)"),
     "C15": dict(engine="api", cat="exploration", tech="runtime equivalence monitoring: independent printer -> parser vs construction API (structure, bytecode)",
-                text="each generated program is rendered four ways (formatting noise, CRLF, literal spellings, constants as in-place literal operands, 8-byte literals with and without the L suffix) and every parse must be error free and equal to the API-built program",
+                text="each generated program is rendered four ways (formatting noise, CRLF, literal spellings, constants as in-place literal operands, 8-byte literals with and without the L suffix) and every parse must be error free and equal to the API-built program; spacing noise includes blanks before the first and after the last token; a text naming an undeclared operand must report an error or keep every instruction",
                 note="printer covers integer/hex literal spellings; programs writing a destination twice are outside the text format"),
     "C16": dict(engine="api", cat="exploration", tech="ASan + LeakSanitizer over random legal lifecycle sequences driven by an ownership model, with heap-growth measurement",
-                text="80k random legal lifecycle sequences (one program in six is 12-40 instructions long) under ASan, repeated under LeakSanitizer in three environments, plus a K/4K iteration heap growth comparison",
+                text="80k random legal lifecycle sequences (one program in six is 12-40 instructions long; executors kept across compiles and resets; programs with several errors at once) under ASan, repeated under LeakSanitizer in three environments, plus a K/4K iteration heap growth comparison",
                 note="legality model is the harness'; only leaks reachable at exit or growth visible in mallinfo2 are seen"),
     "C17": dict(engine="api", cat="exploration", tech="runtime comparison of repeated compilations across histories, code placements, reset and processes/debug levels",
                 text="every program compiled twice with different code-memory history and placement, after reset, and in fresh processes under three debug levels (and twice under ORC_CODE=debug); bytes, listing and result compared for all eight targets; repeat runs of the same code on the same inputs through an executor before and after it was used for a larger n and with every caller-saved vector register filled with different patterns at entry (incl. four-accumulator programs)",
